@@ -1200,6 +1200,89 @@ func runC01(c *Ctx) {
 		o.Fail(readFrom.Pos(), "ReadFrom does not copy the chunk's payload into the caller's buffer")
 	}
 
+	// R12 the outbound translation fails only for what is not a NAT decision: its error ends the router's
+	// forwarding goroutine (processChunks hands it up and the loop stops), so a datagram the NAT merely cannot map
+	// must be dropped with (nil, nil), not reported as an error
+	if natOut != nil {
+		o = c.Obl("R12", fname(natOut), "the outbound translation reports an error (which stops the router's forwarding loop) only for a protocol it does not translate or for an error handed up by a callee; a datagram it cannot map is dropped without error", 1)
+		isCalleeErr := func(v ssa.Value) bool {
+			switch x := origin(v).(type) {
+			case *ssa.Extract:
+				_, isCall := x.Tuple.(*ssa.Call)
+				return isCall && x.Type().String() == "error"
+			case *ssa.Call:
+				return !neverNilCall(x) && x.Type().String() == "error"
+			}
+			return false
+		}
+		notUDP := func(ft fact) bool {
+			cm, ok := normCmp(ft.Cond, ft.Val)
+			if !ok || cm.Op != token.NEQ {
+				return false
+			}
+			for _, sd := range []ssa.Value{cm.X, cm.Y} {
+				if cl, ok := origin(sd).(*ssa.Call); ok && cl.Call.IsInvoke() && cl.Call.Method.Name() == "Network" {
+					return true
+				}
+			}
+			return false
+		}
+		for _, in := range findU(natOut, isReturn) {
+			ret := in.(*ssa.Return)
+			if ret.Parent() != natOut || (natOut.Recover != nil && ret.Block() == natOut.Recover) || len(ret.Results) != 2 {
+				continue
+			}
+			for _, ev := range retValAt(ret, 1) {
+				for _, lf := range phiLeavesWithPred(ev) {
+					if isNilConst(lf.v) {
+						continue
+					}
+					o.Site(ret.Pos(), "error return: %s", lf.v.String())
+					facts := guardsOfBlock(ret.Block())
+					if lf.pred != nil {
+						facts = lf.edgeFacts()
+					}
+					okLeaf := isCalleeErr(lf.v)
+					if !okLeaf {
+						if cl, isC := strip(lf.v).(*ssa.Call); isC && callName(cl) == "fmt.Errorf" {
+							// wrapping a callee's error
+							for _, a := range cl.Call.Args {
+								if derivesFrom(a, func(x ssa.Value) bool { return isCalleeErr(x) }, false) {
+									okLeaf = true
+								}
+							}
+							if sl, isSl := cl.Call.Args[len(cl.Call.Args)-1].(*ssa.Slice); isSl {
+								if arr, isA := sl.X.(*ssa.Alloc); isA && arr.Referrers() != nil {
+									for _, rf := range *arr.Referrers() {
+										ia, ok := rf.(*ssa.IndexAddr)
+										if !ok || ia.Referrers() == nil {
+											continue
+										}
+										for _, r2 := range *ia.Referrers() {
+											if st, ok := r2.(*ssa.Store); ok && isCalleeErr(strip(st.Val)) {
+												okLeaf = true
+											}
+										}
+									}
+								}
+							}
+						}
+					}
+					if !okLeaf {
+						for _, ft := range facts {
+							if notUDP(ft) {
+								okLeaf = true
+							}
+						}
+					}
+					if !okLeaf {
+						o.Fail(ret.Pos(), "the outbound translation fails with an error of its own for a datagram it cannot map: the router's forwarding loop ends on it and every later datagram through this router is lost")
+					}
+				}
+			}
+		}
+	}
+
 	// R9 lock balance
 	for _, f := range []*ssa.Function{rpush, pc, netIn, cIn, cclose, start} {
 		ob := c.Obl("R9", fname(f), "lock balance on every path", 1)
